@@ -1,0 +1,40 @@
+// Copyright 2022 Jeff Kim <hiking90@gmail.com>
+// SPDX-License-Identifier: Apache-2.0
+
+//! Read-only observation points for external verification harnesses.
+//!
+//! This module only exists when the crate is built with `--cfg rsactor_verif`.
+//! Nothing in here changes the behaviour of the crate: every function is a pure
+//! view of state that the crate maintains anyway.
+
+/// Snapshot of the wait-for graph as `(asking actor id, asked actor id)` pairs, sorted.
+#[cfg(feature = "deadlock-detection")]
+pub fn wait_for_edges() -> Vec<(u64, u64)> {
+    let graph = match crate::wait_for_graph().lock() {
+        Ok(graph) => graph,
+        Err(poisoned) => poisoned.into_inner(),
+    };
+    let mut edges: Vec<(u64, u64)> = graph
+        .iter()
+        .map(|(from, to)| (*from, to.id))
+        .collect();
+    edges.sort_unstable();
+    edges
+}
+
+/// `true` if the wait-for graph's mutex is poisoned.
+#[cfg(feature = "deadlock-detection")]
+pub fn wait_for_lock_poisoned() -> bool {
+    crate::wait_for_graph().is_poisoned()
+}
+
+/// Runs the crate's own reachability walk on an arbitrary functional graph given as
+/// `(from, to)` pairs (a later pair with the same `from` replaces an earlier one).
+#[cfg(feature = "deadlock-detection")]
+pub fn has_path(edges: &[(u64, u64)], from: u64, to: u64) -> bool {
+    let graph: std::collections::HashMap<u64, crate::Identity> = edges
+        .iter()
+        .map(|(f, t)| (*f, crate::Identity::new(*t, "verif")))
+        .collect();
+    crate::has_path(&graph, from, to)
+}
